@@ -203,10 +203,10 @@ Definition tcase_of (tk : transport_kind) (q : request) : tcase :=
   let u := r_uri (q_req q) in
   match tk_tls tk with
   | Some e =>
-      mkTls true (u_scheme u) (u_host u) None (q_hk q) (te_covered e) (te_cert e) (te_salpn e) (te_calpn e)
+      mkTls true (u_scheme u) (u_host u) None false (q_hk q) (te_covered e) (te_cert e) (te_salpn e) (te_calpn e)
             (match base_connect (tk_base tk) u with ROk _ => te_fault e | _ => FTransport end)
   | None =>
-      mkTls false (u_scheme u) (u_host u) None (q_hk q) false CGood ANone ANone
+      mkTls false (u_scheme u) (u_host u) None false (q_hk q) false CGood ANone ANone
             (match base_connect (tk_base tk) u with ROk _ => FNone | _ => FTransport end)
   end.
 
